@@ -5,15 +5,26 @@ P  lean/MjProof/Props/C30.lean: the generated `mju_isBad` is 1 exactly for |x| >
    mj_checkPos / mj_checkVel / mj_checkAcc, run under the atom semantics of Model/BadCheck.lean, compute the decision
    logic `BadCheck.check` (refinement, all inputs); a bad entry at any scanned index is caught, the first one is
    reported, warning / reset / forward happen in the coded order; mj_step = checkPos, checkVel, forward, checkAcc, ...
-T  (a) translators re-run on every check: c2lean (mju_isBad, bitwise validation incl. NaN / ±Inf / ±1e10 boundary bit
-       patterns) and skeleton.py (the Prog of the check functions and of mj_step);
-   (b) differential: the same `isbad` / `check` lines go to drv_c30 (which RUNS the generated skeleton under the atom
-       semantics, with the generated mju_isBad on Float) and to harness/c/c30_check.c (the real mju_isBad / mj_checkPos /
-       mj_checkVel / mj_checkAcc on a real model): warning number, lastinfo, reset / forward observed, vector bits.
+   Scan sites: the table of ALL loops that test mju_isBad(A[i]) (regenerated: the three checks + the control validation
+   of mj_fwdActuation) visits every index below the DECLARED length of its array for all values of the model
+   dimensions (nq, nv, nu, nactuator independent: ball / free joints, multi-input actuators); the control validation
+   with the generated bound / zero count catches a bad control at any of the nu slots and zeroes all of them.
+T  (a) translators re-run on every check: c2lean (mju_isBad, mju_clip, bitwise validation incl. NaN / ±Inf / ±1e10 /
+       clamp-boundary bit patterns), skeleton.py (the Prog of the check functions and of mj_step) and c30_scans.py (the
+       scan-site table: array, declared length from mjxmacro.h / the stack allocation, loop start and bound with
+       single-definition locals resolved, reaction);
+   (b) differential: the same `isbad` / `check` / `ctrlscan` lines go to drv_c30 (which RUNS the generated skeleton /
+       the generated control-scan site, with the generated mju_isBad / mju_clip on Float) and to harness/c/c30_check.c
+       (the real mju_isBad / mj_checkPos / mj_checkVel / mj_checkAcc on a real model; the real mj_fwdActuation on models
+       whose actuators have 0, 1 or 3 controls each, every control feeding an integrator so that act_dot IS the local
+       control vector): warning number, lastinfo, reset / forward observed, vector bits.
 S  injection oracle on the real engine (harness/c/engine_repl.c): NaN / ±Inf / ±1e11 at indices of qpos, qvel, act,
-   ctrl, qfrc_applied, xfrc_applied of generated models (incl. disabled actuator groups / mjDSBL_ACTUATION), then
-   mj_step: state finite afterwards (and, if not, after a second step), warning counters, state bitwise equal to
-   "reset then step" (resp. "zero ctrl then step" for Euler / RK4), autoreset on and off.
+   ctrl, qfrc_applied, xfrc_applied, mocap_pos, mocap_quat over the array lengths REPORTED BY THE ENGINE for the
+   compiled model (every index of ctrl and act; the last index of every field always) of generated models with
+   nq != nv, nu != nactuator (so3 servos with 3 / 4 inputs, pid with 1..3, dcmotor with 0..4), na != nu, trees
+   initialised asleep, disabled actuator groups / mjDSBL_ACTUATION, then mj_step: state finite afterwards (and, if
+   not, after a second step), warning counters, state bitwise equal to "reset then step" (resp. "zero ctrl then step"
+   for Euler / RK4), autoreset on and off (off: a NaN control must be counted by mjWARN_BADCTRL whatever else fires).
 """
 import math
 import os
@@ -24,9 +35,9 @@ from gen.enums import E
 from gen.models import ModelGen
 
 META = {
-    "technique": "c2lean-generated mju_isBad (regenerated each run, bitwise translation validation on NaN/Inf/boundary bit patterns) + value-class model of the IEEE comparisons; translator-generated control skeletons of mj_checkPos/Vel/Acc and mj_step (translate/skeleton.py) given an atom semantics in Lean and PROVED to compute a small decision-logic model (loop induction over the scanned index list, simp over the generated program); Lean 4 proofs over the reals / over arbitrary carriers; differential of the executed generated skeleton against the real check functions on a real mjModel; injection oracle on mj_step through the shared engine REPL",
-    "text": "Proved for all inputs: the generated mju_isBad returns 1 exactly when |x| > mjMAXVAL = 1e10 (reals) and the value-class model of the C expression is additionally true for NaN and both infinities; running the generated skeleton of mj_checkPos / mj_checkVel / mj_checkAcc under the stated atom semantics terminates normally and equals the decision logic: the first bad entry in scan order (every index for positions; every index, or the awake dofs when sleeping filters, for velocities / accelerations) triggers mj_warning, then mj_resetData unless mjDSBL_AUTORESET, then number++ / lastinfo = index, then (accelerations, autoreset) mj_forward; so a bad entry at ANY scanned index is caught, the counter ends at old+2 without autoreset and at 1 with autoreset (the reset clears the warning record first), the data slice is the reset value, and a clean vector is left untouched; the generated mj_step runs checkPos, checkVel, forward, checkAcc in this order. Sampled on the real engine: injection of NaN/±Inf/±1e11 at indices of qpos, qvel, act, ctrl, qfrc_applied, xfrc_applied followed by mj_step.",
-    "note": "The statement 'after mj_step every state component is finite' is NOT proved (it would need models of mj_forward and of the integrators): post_step_finite_partial only bounds the explicit Euler update of a scalar joint over the reals when no check fires; the engine oracle samples mj_step itself. NaN/Inf are not reals: their treatment by mju_isBad is a hand model of the IEEE comparison rules tied to the real function by the bitwise differential only. The atom semantics (what `i++`, `mj_resetData`, ... mean on the modelled slice) is hand-written; the control structure is generated. mj_resetData is modelled only on the slice (checked vector, its warning record, ghost call counters). With autoreset the warning counter does not 'increase' when it was already >= 1: the reset clears it and it is then set to 1 (modelled and proved as coded; the oracle requires counter >= 1 after a reset and old+2 without autoreset). FINDINGS reported by the oracle (the literal first sentence of the property does not hold on the real code; recorded in known_findings.json under narrow keys: c30:nonfinite-after-step:ctrl only for implicit/implicitfast with a stateless affine-gain actuator with velocity coefficient, :qfrc_applied / :xfrc_applied only for RK4 with a huge finite force, :act and c30:nonfinite-after-two-steps:act only for activations; any other way gets the suffix :other-mechanism or its own field key and is a violation): the checks run only at the start of mj_step and after the first mj_forward, so (i) with RK4 a huge finite force / a non-finite activation behind a force clamp blows up in the later stages and the step returns NaN (caught by the next step), (ii) with the implicit integrators mjd_actuator_vel reads the raw d->ctrl, so a NaN control poisons the step although mjWARN_BADCTRL zeroed the local copy, (iii) act is examined by no check: a non-finite activation of an actuator that produces no force (disabled group / mjDSBL_ACTUATION) is carried along forever.",
+    "technique": "c2lean-generated mju_isBad (regenerated each run, bitwise translation validation on NaN/Inf/boundary bit patterns) + value-class model of the IEEE comparisons; translator-generated control skeletons of mj_checkPos/Vel/Acc and mj_step (translate/skeleton.py) given an atom semantics in Lean and PROVED to compute a small decision-logic model (loop induction over the scanned index list, simp over the generated program); Lean 4 proofs over the reals / over arbitrary carriers; differential of the executed generated skeleton against the real check functions on a real mjModel; scan-site table regenerated from the clang AST of engine_forward.c (translate/c30_scans.py: every loop testing mju_isBad(A[i]) with its declared array length, start, bound, reaction), coverage of every index PROVED from the table for all values of the model dimensions, and the control validation of mj_fwdActuation executed from the generated site and compared bitwise with the real function on models with nu != nactuator; injection oracle on mj_step through the shared engine REPL on generated models with multi-input actuators, quaternion joints, sleeping trees and mocap bodies",
+    "text": "Proved for all inputs: the generated mju_isBad returns 1 exactly when |x| > mjMAXVAL = 1e10 (reals) and the value-class model of the C expression is additionally true for NaN and both infinities; running the generated skeleton of mj_checkPos / mj_checkVel / mj_checkAcc under the stated atom semantics terminates normally and equals the decision logic: the first bad entry in scan order (every index for positions; every index, or the awake dofs when sleeping filters, for velocities / accelerations) triggers mj_warning, then mj_resetData unless mjDSBL_AUTORESET, then number++ / lastinfo = index, then (accelerations, autoreset) mj_forward; so a bad entry at ANY scanned index is caught, the counter ends at old+2 without autoreset and at 1 with autoreset (the reset clears the warning record first), the data slice is the reset value, and a clean vector is left untouched; the generated mj_step runs checkPos, checkVel, forward, checkAcc in this order. Scan sites (regenerated): engine_forward.c contains exactly four loops that test mju_isBad(A[i]) -- mj_checkPos over d->qpos, mj_checkVel over d->qvel, mj_checkAcc over d->qacc and the control validation of mj_fwdActuation over the stack copy of d->ctrl -- and each starts at 0 and is bounded by the DECLARED length of its array (m->nq, m->nv, m->nv, m->nu), which is proved equivalent to visiting every index for ALL assignments of the model dimensions (m->nu and m->nactuator, m->nq and m->nv are independent numbers); with the bound and the zeroed count of the generated site, a bad control (after the clamp) at ANY of the nu slots fires mjWARN_BADCTRL with the first bad index and replaces all nu controls by zero, clean controls are used unchanged, and a loop stopping earlier provably lets a bad control through (sharpness). Sampled on the real engine: injection of NaN/±Inf/±1e11 at indices (every index of ctrl and act, the last index of every field) of qpos, qvel, act, ctrl, qfrc_applied, xfrc_applied, mocap_pos, mocap_quat of models with nq != nv, nu != nactuator (so3 / pid / dcmotor input blocks of 0..4 controls), na != nu, trees initialised asleep, followed by mj_step.",
+    "note": "The statement 'after mj_step every state component is finite' is NOT proved (it would need models of mj_forward and of the integrators): post_step_finite_partial only bounds the explicit Euler update of a scalar joint over the reals when no check fires; the engine oracle samples mj_step itself. NaN/Inf are not reals: their treatment by mju_isBad is a hand model of the IEEE comparison rules tied to the real function by the bitwise differential only. The atom semantics (what `i++`, `mj_resetData`, ... mean on the modelled slice) is hand-written; the control structure is generated. mj_resetData is modelled only on the slice (checked vector, its warning record, ghost call counters). With autoreset the warning counter does not 'increase' when it was already >= 1: the reset clears it and it is then set to 1 (modelled and proved as coded; the oracle requires counter >= 1 after a reset and old+2 without autoreset). FINDINGS reported by the oracle (the literal first sentence of the property does not hold on the real code; recorded in known_findings.json under narrow keys: c30:nonfinite-after-step:ctrl only for implicit/implicitfast with a stateless affine-gain actuator with velocity coefficient, :qfrc_applied / :xfrc_applied only for RK4 with a huge finite force, :act and c30:nonfinite-after-two-steps:act only for activations; any other way gets the suffix :other-mechanism or its own field key and is a violation): the checks run only at the start of mj_step and after the first mj_forward, so (i) with RK4 a huge finite force / a non-finite activation behind a force clamp blows up in the later stages and the step returns NaN (caught by the next step), (ii) with the implicit integrators mjd_actuator_vel reads the raw d->ctrl, so a NaN control poisons the step although mjWARN_BADCTRL zeroed the local copy, (iii) act is examined by no check: a non-finite activation of an actuator that produces no force (disabled group / mjDSBL_ACTUATION) is carried along forever, (iv) sleeping: mj_checkVel / mj_checkAcc scan dof_awake_ind only, so a bad velocity written into a SLEEPING dof is not reported as mjWARN_BADQVEL (c30:bad-qvel-not-warned:sleeping-dof; the write wakes the tree and a non-finite value is caught as a bad acceleration, a huge finite one with RK4 gives a NaN state without any warning: c30:nonfinite-after-step:qvel-sleeping-dof), (v) the mocap pose is examined by no check either (c30:nonfinite-after-step:mocap: implicit integrators + spatial tendon on the mocap body), (vi) instead of a warning the step can end in mjERROR from the constraint solver (c30:engine-error:unchecked-input for act / mocap, c30:engine-error:rk4-later-stage for a huge finite applied force). The copy of d->ctrl into the local array (per-actuator blocks, delayed actuators through the history buffer) is not modelled: the control-scan theorem is about the local vector after copy and clamp; the differential and the injection oracle exercise the copy with blocks of 0, 1, 2, 3 and 4 controls. A model on which a CLEAN mj_step already raises an engine error (seen: 'mj_sleep: found sleeping tree 0 in island 0' on the first step of a tree initialised asleep that owns a constraint) is skipped and counted.",
 }
 
 P = "MjProof.C30."
@@ -35,6 +46,8 @@ THEOREMS = [P + t for t in (
     "gen_checkPos_refines", "gen_checkVel_refines", "gen_checkAcc_refines",
     "check_fires_iff", "check_reports_first", "check_catches", "check_catches_every_index", "check_clean",
     "gen_checkPos_catches", "step_check_order", "post_step_finite_partial",
+    "covers_of_wellBounded", "wellBounded_of_covers", "scan_sites_wellBounded", "scan_sites_cover", "scan_sites_complete",
+    "ctrlScan_catches", "ctrlScan_clean", "ctrlScan_misses_beyond_bound", "gen_ctrl_scan_catches", "gen_ctrl_site_exists",
 )]
 
 fbits = kernelval.fbits
@@ -58,6 +71,20 @@ def isbad_gen(rng, inputs):
     if r < 0.75:
         return [rng.choice((1, -1)) * 10 ** rng.uniform(9, 11)]
     return kernelval.default_gen(rng, inputs)
+
+
+def clip_gen(rng, inputs):
+    """mju_clip(x, min, max): NaN / +-Inf / huge x, x at and next to the bounds, generic"""
+    lo = -rng.uniform(0.2, 2)
+    hi = rng.uniform(0.2, 2)
+    r = rng.random()
+    if r < 0.2:
+        x = rng.choice((float("nan"), float("inf"), float("-inf"), 1e11, -1e11, 1e300))
+    elif r < 0.5:
+        x = rng.choice((lo, hi, math.nextafter(lo, -math.inf), math.nextafter(hi, math.inf), math.nextafter(lo, 0.0), math.nextafter(hi, 0.0)))
+    else:
+        x = rng.uniform(-3, 3)
+    return [x, lo, hi]
 
 
 def special_bits(rng):
@@ -91,6 +118,73 @@ def check_lines(ctx, count):
             W, rng.choice((0, 1)), sleep, rng.choice((0, 0, 1, 5)), n, " ".join(vec), " ".join(vec0), k,
             "".join(" %d" % a for a in awake)))
     return lines
+
+
+def ctrlscan_lines(ctx, count):
+    """`ctrlscan` ops: K actuators with control blocks of 1 (`i`), 3 (`s`, so3 servo) or 0 (`z`, dcmotor without input)
+    entries, so nu != nactuator on most lines; 0..2 special entries anywhere, the last slot and the slots with index
+    >= nactuator over-sampled; per-slot limits (a clamped +-Inf / huge value is not bad any more, a NaN stays)"""
+    rng = ctx.rng
+    lines = []
+    hist = ctx.extra.setdefault("ctrlscan_shapes", {})
+    while len(lines) < count:
+        K = rng.randint(1, 6)
+        kinds = [rng.choice("iisssz") for _ in range(K)]
+        nu = sum({"i": 1, "s": 3, "z": 0}[k] for k in kinds)
+        if nu == 0:
+            continue
+        vec = [fbits(rng.uniform(-3, 3)) for _ in range(nu)]
+        for _ in range(rng.choice((0, 1, 1, 1, 2))):
+            vec[rng.randrange(nu)] = special_bits(rng)
+        if rng.random() < 0.3:
+            vec[nu - 1] = special_bits(rng)
+        if nu > K and rng.random() < 0.4:
+            vec[rng.randrange(K, nu)] = special_bits(rng)
+        lims = []
+        for _ in range(nu):
+            if rng.random() < 0.3:
+                lims.append("1 %s %s" % (fbits(-rng.uniform(0.2, 2)), fbits(rng.uniform(0.2, 2))))
+            else:
+                lims.append("0 %s %s" % (fbits(0.0), fbits(0.0)))
+        shape = "nu>nact" if nu > K else "nu=nact" if nu == K else "nu<nact"
+        hist[shape] = hist.get(shape, 0) + 1
+        lines.append("ctrlscan %d %d k %d %s nu %d lim %s ctrl %s" % (1 if rng.random() < 0.2 else 0, rng.choice((0, 0, 1, 5)), K,
+                                                                    " ".join(kinds), nu, " ".join(lims), " ".join(vec)))
+    return lines
+
+
+def ctrlscan_oracle(line, out):
+    """property oracle on the REAL mj_fwdActuation's output alone: a bad control (after the clamp) at ANY of the nu slots
+    -> warning counter +1, lastinfo = first bad slot, every control the stage uses is zero; otherwise nothing happens"""
+    t = line.split()
+    if t[0] != "ctrlscan" or out == "bad-op":
+        return None
+    clampoff, number0, K = int(t[1]), int(t[2]), int(t[4])
+    p = 5 + K
+    nu = int(t[p + 1])
+    vals = []
+    for i in range(nu):
+        lim, lo, hi = t[p + 3 + 3 * i] == "1", kernelval.frombits(t[p + 4 + 3 * i]), kernelval.frombits(t[p + 5 + 3 * i])
+        x = kernelval.frombits(t[p + 4 + 3 * nu + i])
+        if lim and not clampoff:
+            x = lo if x < lo else hi if x > hi else x
+        vals.append(x)
+    o = out.split()
+    if len(o) != 2 + nu:
+        return "malformed-output"
+    number, lastinfo, used = int(o[0]), int(o[1]), o[2:]
+    bad = [i for i, x in enumerate(vals) if x != x or abs(x) > 1e10]
+    if bad:
+        if number != number0 + 1 or lastinfo != bad[0]:
+            return "bad-control-at-slot-%s-not-reported" % ("ge-nactuator" if bad[0] >= K else "lt-nactuator")
+        if any(u != fbits(0.0) for u in used):
+            return "bad-control-not-zeroed"
+    else:
+        if number != number0:
+            return "clean-controls-warned"
+        if used != [fbits(x) for x in vals]:
+            return "clean-controls-changed"
+    return None
 
 
 def isbad_lines(ctx, count):
@@ -523,7 +617,9 @@ def engine_oracle(ctx, exe, nmodels, per_field):
                 R.cmd(("scalar 2 time" if f == "time" else "get 2 " + f), ("ref2", f))
             cases = inject_cases(ctx, sizes, per_field)
             if not autoreset:
-                cases = [c for c in cases if c[0] in ("qpos", "qvel", "qfrc_applied")][:40]
+                # (the warning counters survive the step here: a NaN control must be COUNTED, whatever else fires)
+                cases = [c for c in cases if c[0] in ("qpos", "qvel", "qfrc_applied")][:40] + \
+                        [c for c in cases if c[0] == "ctrl" and c[2] == "nan"]
             for ci, (f, i, v) in enumerate(cases):
                 R.cmd("resetdata 0")
                 for b in base:
@@ -599,7 +695,9 @@ def engine_oracle(ctx, exe, nmodels, per_field):
                     # stages without a check (huge finite applied force).  Anything else is a violation.
                     if f in ("act", "mocap_pos", "mocap_quat"):
                         ekey = ":unchecked-input"
-                    elif f in ("qfrc_applied", "xfrc_applied") and mdl.options["integrator"] == "RK4" and v in ("1e11", "-1e11"):
+                    elif mdl.options["integrator"] == "RK4" and v in ("1e11", "-1e11") and (
+                            f in ("qfrc_applied", "xfrc_applied") or (f == "qvel" and dof_asleep[i])):
+                        # (a huge velocity of a SLEEPING dof is outside mj_checkVel's scan: recorded finding, clause B)
                         ekey = ":rk4-later-stage"
                     else:
                         ekey = ""
@@ -705,6 +803,14 @@ def engine_oracle(ctx, exe, nmodels, per_field):
                             fail("c30:noautoreset-counter", "autoreset disabled, bad %s[%d] = %s: counter %d went %d -> %d (expected +2: mj_warning and number++)" % (f, i, v, w, w0[w], w1[w]), rp)
                             continue
                         stats["caught"][f] += 1
+                    if f == "ctrl" and v == "nan" and variant == "plain":
+                        if w1[W_CTRL] <= w0[W_CTRL]:
+                            fail("c30:nan-ctrl-not-warned", "autoreset disabled: NaN control %d of %d (nactuator %d) raised no mjWARN_BADCTRL "
+                                 "(counters qpos/qvel/qacc/ctrl %s -> %s)" % (i, sizes["nu"], sizes["nactuator"],
+                                                                             [w0[w] for w in (W_QPOS, W_QVEL, W_QACC, W_CTRL)],
+                                                                             [w1[w] for w in (W_QPOS, W_QVEL, W_QACC, W_CTRL)]), rp)
+                            continue
+                        stats["caught"]["ctrl"] += 1
                     if was_reset and (caught or f in ("qpos", "qvel")):
                         fail("c30:reset-although-disabled", "autoreset disabled but the state equals the reset state", rp)
                         continue
@@ -735,27 +841,51 @@ def run(ctx):
         t0 = time.time()
     ctx.rule = ("(a) `isbad` bit patterns: NaN payloads, ±Inf, ±1e10 and neighbours, random magnitudes 1e9..1e11, generic values; "
                 "(b) `check` lines: vectors of length 1..13 with 0..3 special entries (NaN/±Inf/beyond/at the limit), last index "
-                "over-sampled, autoreset and sleep flags, awake lists; (c) engine injections: (model, autoreset, field, index, value); "
+                "over-sampled, autoreset and sleep flags, awake lists; `ctrlscan` lines: 1..6 actuators with control blocks of 0 / 1 / 3 "
+                "entries (nu != nactuator), 0..2 special entries, last slot and slots >= nactuator over-sampled, per-slot limits, "
+                "mjDSBL_CLAMPCTRL; (c) engine injections: (model, autoreset, field, index, value) on models with multi-input "
+                "actuators (65%), trees initialised asleep (25%), quaternion joints, mocap bodies; "
                 "a case is distinct by its full tuple / line")
     manifest = kernelval.regen(ctx)          # first: the theorems are about the regenerated Gen/ files
+    import json
+    mp = os.path.join(common.LEAN, "MjProof", "Gen", "c30_scans_manifest.json")
+    sman = json.load(open(mp)) if os.path.exists(mp) else {"refused": ["manifest missing"], "sites": []}
+    fresh = os.path.realpath(sman.get("repo", "")) == os.path.realpath(common.REPO)
+    ctx.oblige("translate/c30_scans.py: every bad-value scan loop of engine_forward.c translated (%d sites, none refused)"
+               % len(sman.get("sites", [])), "translator", fresh and not sman.get("refused") and len(sman.get("sites", [])) > 0,
+               "repo=%s refused=%s" % (sman.get("repo"), sman.get("refused")))
+    ctx.extra["scan_sites"] = [{k: s[k] for k in ("func", "array", "declared", "bound", "filterBound", "zeroCount", "exit")}
+                               for s in sman.get("sites", [])]
     lap("regen")
     ctx.lean_props(THEOREMS)
     lap("lean_props")
-    kernelval.validate(ctx, manifest, ["mju_isBad"], 400 if quick else 4000, gens={"mju_isBad": isbad_gen},
-                       label="c2lean mju_isBad")
+    kernelval.validate(ctx, manifest, ["mju_isBad", "mju_clip"], 400 if quick else 4000,
+                       gens={"mju_isBad": isbad_gen, "mju_clip": clip_gen}, label="c2lean mju_isBad, mju_clip")
     lap("kernel_validation")
     drv = ctx.driver("drv_c30")
     impl = ctx.harness("harness/c/c30_check.c", "c30_check")
     if drv and impl:
-        lines = isbad_lines(ctx, 300 if quick else 5000) + check_lines(ctx, 600 if quick else 8000)
-        ctx.differential("mju_isBad + generated check skeletons (run in Lean) vs real mju_isBad / mj_checkPos / mj_checkVel / mj_checkAcc",
-                         [drv], [impl], lines, keyf=lambda l: l if l.split()[:1] in (["check"], ["isbad"]) and len(l.split()) > 1 else None)
+        lines = isbad_lines(ctx, 300 if quick else 5000) + check_lines(ctx, 600 if quick else 8000) + \
+            ctrlscan_lines(ctx, 500 if quick else 6000) + \
+            ["ctrlscan 0 0 k 1 i nu 1 lim 0 0 0 ctrl zz", "ctrlscan 2 0 k 1 i nu 1 lim 0 %s %s ctrl nan" % (fbits(0.0), fbits(0.0)),
+             "ctrlscan 0 0 k 2 i s nu 3 lim ctrl", "ctrlscan 0 0 k 1 q nu 1 lim 0 %s %s ctrl nan" % (fbits(0.0), fbits(0.0))]
+        ctx.differential("mju_isBad + generated check skeletons + generated control-scan site (run in Lean) vs real mju_isBad / "
+                         "mj_checkPos / mj_checkVel / mj_checkAcc / mj_fwdActuation",
+                         [drv], [impl], lines,
+                         keyf=lambda l: l if l.split()[:1] in (["check"], ["isbad"], ["ctrlscan"]) and len(l.split()) > 1 else None)
         rc, outs, err = ctx.run_lines([impl], lines)
         nf = 0
         if rc == 0 and len(outs) == len(lines):
             for l, o in zip(lines, outs):
-                why = check_oracle(l, o)
-                if why:
+                why = ctrlscan_oracle(l, o) if l.startswith("ctrlscan ") else check_oracle(l, o)
+                if why and l.startswith("ctrlscan "):
+                    nf += 1
+                    if nf <= 5:
+                        ctx.oracle_failure("c30:ctrlscan:" + why, "real mj_fwdActuation (control validation): " + why,
+                                           {"line": l, "impl_output": o,
+                                            "replay": "echo '<line>' | c30_check harness (harness/c/c30_check.c): prints the BADCTRL "
+                                                      "counter, lastinfo and act_dot = the controls the stage used"})
+                elif why:
                     nf += 1
                     if nf <= 5:
                         ctx.oracle_failure("c30:check:" + why, "real check function: " + why, {"line": l, "impl_output": o,
@@ -767,7 +897,7 @@ def run(ctx):
     lap("check_differential")
     exe = ctx.harness("harness/c/engine_repl.c", "engine_repl", deps=["harness/mjbuild.h"])
     if exe:
-        stats = engine_oracle(ctx, exe, 24 if quick else 200, 6 if quick else 16)
+        stats = engine_oracle(ctx, exe, 48 if quick else 300, 6 if quick else 16)
         ctx.extra["injection_oracle"] = stats
         ctx.oblige("injection oracle ran (%d models, %d injections)" % (stats["models"], stats["injections"]), "oracle-ran",
                    stats["models"] > 0 and stats["injections"] > 0)
